@@ -84,10 +84,15 @@ BodyStep ==
                THEN UNCHANGED <<vars, nreg>>       \* resource bound reached: the nested call is not made
                ELSE DoCall(g, o)
 
+\* "nomutex": a Sequential handler's mutex is not taken
+MutNoMutex(g) ==
+  /\ Mutant = "nomutex" /\ InvAt(g, "enter") /\ ~SeqFree(g)
+  /\ EnterBody(g, Top(g).reg, Top(g).pub)
+
 \* entering a body loads its script
 EnterStep ==
   \E g \in Gs : /\ InvAt(g, "enter")
-                /\ Enter(g, Top(g).reg, Top(g).pub)
+                /\ (Enter(g, Top(g).reg, Top(g).pub) \/ MutNoMutex(g))
                 /\ scr' = (InvKey(g) :> attr[Top(g).reg].body) @@ scr
                 /\ UNCHANGED <<nreg, hist>>
 
@@ -130,11 +135,6 @@ MutWaitEarly(g) ==
   /\ SetTop(g, [Top(g) EXCEPT !.pc = "ret", !.res = "ok"])
   /\ gh' = [gh EXCEPT !.bad = @ \cup Flag(gh.waitNeeds[g] \cap Tasks # {}, "waitEarly")]
   /\ UNCHANGED <<cfg, reg, attr, fired, seqHolder, cancelled, closed, pubs, npub>>
-\* "nomutex": a Sequential handler's mutex is not taken
-MutNoMutex(g) ==
-  /\ Mutant = "nomutex" /\ InvAt(g, "lock")
-  /\ SetTop(g, [Top(g) EXCEPT !.pc = "enter"])
-  /\ UNCHANGED <<cfg, reg, attr, fired, seqHolder, cancelled, closed, pubs, npub, gh>>
 \* "claimfirst": the Once claim is taken before the context is looked at (ebu before the fix of defect D1)
 MutClaimFirst(g) ==
   /\ Mutant = "claimfirst" /\ PubAt(g, "claim")
@@ -143,7 +143,7 @@ MutClaimFirst(g) ==
        /\ fired' = fired \cup {r}
        /\ SetTop(g, [f EXCEPT !.pc = "dispatch", !.retire = @ \cup {r}, !.claimed = @ \cup {r}])
   /\ UNCHANGED <<cfg, reg, attr, seqHolder, cancelled, closed, pubs, npub, gh>>
-Mutants == \E g \in Gs : MutSnapshotLive(g) \/ MutClaimRacy(g) \/ MutWaitEarly(g) \/ MutNoMutex(g) \/ MutClaimFirst(g)
+Mutants == \E g \in Gs : MutSnapshotLive(g) \/ MutClaimRacy(g) \/ MutWaitEarly(g) \/ MutClaimFirst(g)
 
 Internal == \E g \in Gs : InternalStep(g)
 
